@@ -8,6 +8,7 @@ mass content), d ln(rho)/dp obtained by Richardson-extrapolated central differen
 
 from __future__ import annotations
 
+import functools
 import math
 
 import numpy as np
@@ -73,6 +74,7 @@ def generate(ck):
                 "oil_p": [wl.f(v) for v in np.concatenate([rng.uniform(15, pb, 3), [pb], rng.uniform(pb, 2.5 * pb, 2)])],
                 "water": [wl.f(rng.uniform(60, 400)), wl.f(rng.choice([0.0, rng.uniform(0, 25)]))],
                 "water_p": [wl.f(v) for v in rng.uniform(15, 20000, 6)],
+                "threads": bool(i % 25 == 3),
             }
         )
     return descs
@@ -91,6 +93,29 @@ def run_case(ck, desc):
     mu = np.array([float(gas.viscosity_Sutton(T, p, Tpc, ppc, sg)) for p in ps])
     cg = np.array([float(gas.compressibility_DAK(T, p, Tpc, ppc)) for p in ps])
     ck.count("gas_state_points", len(ps))
+    if desc.get("threads"):
+        # the same correlations called from four threads at once, each thread with its own gas and
+        # temperature (one table per well in a thread pool): every value equals the call made alone
+        groups = []
+        for k in range(4):
+            Tk, Tpck, ppck, sgk = T + 23.0 * k, Tpc + 11.0 * k, ppc - 7.0 * k, min(1.2, sg + 0.03 * k)
+            g = []
+            for p in ps:
+                g += [
+                    functools.partial(gas.density_DAK, Tk, float(p), Tpck, ppck, sgk),
+                    functools.partial(gas.b_factor_DAK, Tk, float(p), Tpck, ppck),
+                    functools.partial(gas.compressibility_DAK, Tk, float(p), Tpck, ppck),
+                    functools.partial(gas.viscosity_Sutton, Tk, float(p), Tpck, ppck, sgk),
+                ]
+            groups.append(g)
+        bad, errs, n_calls = instrument.concurrent_vs_alone(groups)
+        ck.count("concurrent_evaluations", n_calls)
+        ck.count("thread_groups")
+        if errs:
+            ck.violation("threads-every-call-returns", {"errors": [e[2] for e in errs[:3]]}, desc)
+        for k, i, a, b in bad[:3]:
+            fn = ("density_DAK", "b_factor_DAK", "compressibility_DAK", "viscosity_Sutton")[i % 4]
+            ck.violation("threads-same-value-as-the-call-made-alone", {"function": fn, "thread": k, "concurrent": a, "alone": b, "n_differing": len(bad)}, desc)
 
     # 1. real-gas law with the library's own Z
     law = ps * 28.9647 * sg / (Z * 10.7316 * (T + 459.67))
